@@ -8,6 +8,7 @@ import (
 	"io"
 	"net"
 	"os"
+	"strings"
 	"sync"
 	"sync/atomic"
 	"testing"
@@ -37,7 +38,10 @@ const (
 	// stMalformed: a complete but malformed request (or a good announce followed by a malformed upgrade request), then
 	// silence; a peer's bad input may cost that peer its connection, never the other peers theirs
 	stMalformed = "malformed-request"
-	stSlow      = "slow-trickle"
+	// stStartTLSHello (servers offering StartTLS only): both requests done, StartTLS asked for and granted with 101,
+	// then not a byte of the TLS hello
+	stStartTLSHello = "inside-starttls-hello"
+	stSlow          = "slow-trickle"
 )
 
 type caseDesc struct {
@@ -136,6 +140,13 @@ func scriptSteps(c io.ReadWriter, d caseDesc, stop <-chan struct{}, skipLastRead
 		}
 	case stGarbage:
 		c.Write(vlib.PRF(uint64(d.Cut), 0, 200+d.Cut%800))
+	case stStartTLSHello:
+		c.Write([]byte(announce()))
+		readResponse(c)
+		c.Write([]byte(strings.Replace(upgradeReq(), "Connection: upgrade\r\n", "Connection: upgrade\r\nSecurity: StartTLS\r\n", 1)))
+		if !skipLastRead {
+			readResponse(c)
+		}
 	case stMalformed:
 		bad := malformedRequests[d.Cut%len(malformedRequests)]
 		if d.AfterAnnounce {
@@ -444,6 +455,10 @@ func TestStalledPeers(t *testing.T) {
 		}
 		d.Good = rapid.IntRange(1, 3).Draw(rt, "good")
 		d.StartTLS = (d.Kind == vlib.CarTCP || d.Kind == vlib.CarUnix || d.Kind == vlib.CarHTTP || d.Kind == vlib.CarUDP) && rapid.IntRange(0, 2).Draw(rt, "starttls") == 0
+		if d.StartTLS && rapid.IntRange(0, 3).Draw(rt, "startTLSHello") == 0 {
+			d.Stall = stStartTLSHello
+			d.Stalled = rapid.IntRange(1, 8).Draw(rt, "stalledInHello")
+		}
 		vlib.Tap.Reset()
 		problem, inconclusive := runCase(d)
 		if inconclusive {
@@ -508,6 +523,27 @@ func TestMalformedRequests(t *testing.T) {
 					vlib.Rec.Violation(map[string]interface{}{"property": "C15", "case": d, "request": malformedRequests[i], "problem": problem})
 					t.Fatalf("C15 %+v: %s", d, problem)
 				}
+			}
+		}
+	}
+}
+
+// TestPeersStalledInsideStartTLS enumerates, for the endpoints that offer StartTLS, 1..8 peers that were granted StartTLS
+// and never send their TLS hello, with two well-behaved clients (which themselves use StartTLS) arriving meanwhile.
+func TestPeersStalledInsideStartTLS(t *testing.T) {
+	for _, kind := range []string{vlib.CarTCP, vlib.CarHTTP, vlib.CarUDP} {
+		for _, stalled := range []int{1, 4, 8} {
+			d := caseDesc{Kind: kind, StartTLS: true, Stall: stStartTLSHello, Cut: 1, Stalled: stalled, Good: 2}
+			vlib.Tap.Reset()
+			problem, inconclusive := runCase(d)
+			if inconclusive {
+				vlib.Rec.Inconclusive("setup-or-overload")
+				continue
+			}
+			vlib.Rec.Case(fmt.Sprintf("enumerated %+v", d), true, []string{"kind:" + d.Kind, "stall:" + d.Stall, "enumerated", fmt.Sprintf("stalled:%d", stalled)}, func() interface{} { return d })
+			if problem != "" {
+				vlib.Rec.Violation(map[string]interface{}{"property": "C15", "case": d, "problem": problem})
+				t.Fatalf("C15 %+v: %s", d, problem)
 			}
 		}
 	}
